@@ -25,7 +25,7 @@ for n in names:
         if rc != 0:
             bad += 1
             print("%s %s exit=%d" % (n, c, rc))
-            for l in lines[:4]:
-                print("    " + l[:330])
+            for l in lines[:2]:
+                print("    " + l[:260])
     print(n, "done")
 print("FALSE ALARMS:", bad)
